@@ -121,7 +121,11 @@ def random_general(rng):
         r = F(rng.randint(1, 96), 97)
         return tuple(rng.sample([g(), g(), r], 3))
     d = rng.choice([7, 11, 13, 17, 19, 23, 29, 31, 37, 41, 43, 53, 59, 61, 67, 71, 73, 79, 83, 89, 97, 64, 128])
-    return tuple(F(rng.randint(1, d - 1), d) for _ in range(3))
+    p = [F(rng.randint(1, d - 1), d) for _ in range(3)]
+    if rng.random() < 0.08:
+        # one coordinate a few millionths of a cell edge inside a face (0.999995, 0.000003): still a general position
+        p[rng.randrange(3)] = rng.choice([1 - F(rng.randint(2, 9), 10**6), F(rng.randint(2, 9), 10**6)])
+    return tuple(p)
 
 
 def random_special_candidate(rng):
@@ -151,9 +155,11 @@ def separation_ok(symops, sites, margin=0.05):
         if cKDTree(P, boxsize=1.0 + 1e-12).query_pairs(margin):
             return False
     # keep coordinates off the 0/1 seam unless they are exactly on it
+    # coordinates a few millionths of a cell edge from a face are legal and unambiguous; only closer than 1e-7 (where the float image may
+    # land on either side of the seam) is avoided
     for p in pts:
         for c in p:
-            if c != 0 and (c < F(1, 1000) or c > F(999, 1000)):
+            if c != 0 and (c < F(1, 10**7) or c > 1 - F(1, 10**7)):
                 return False
     return True
 
@@ -165,7 +171,8 @@ def random_sites(rng, symops, want_special):
         sites, nspecial = [], 0
         for k in range(n):
             z = rng.choice([1, 6, 7, 8, 9, 14, 16, 17, 26, 29, 79])
-            occ = rng.choice([F(1), F(1), F(1), F(1, 2), F(1, 4), F(3, 4), F(1, 8)])
+            # exact fractions, and partial occupancies as files quote them (six decimals: three of them sum to 0.999999, not to 1)
+            occ = rng.choice([F(1), F(1), F(1), F(1, 2), F(1, 4), F(3, 4), F(1, 8), F(333333, 10**6), F(166667, 10**6), F(499999, 10**6), F(250001, 10**6)])
             if want_special and k == 0:
                 for _ in range(60):
                     pos = random_special_candidate(rng)
